@@ -117,6 +117,8 @@ func exec(t []string) string {
 	switch t[0] {
 	case "ctx":
 		return pctx.Exec(t)
+	case "e2e":
+		return pctx.E2E(t)
 	case "pol":
 		ty, ver := u32(t[1]), u32(t[2])
 		txn, err := transaction.GetTransaction(common2.TxType(ty))
@@ -169,6 +171,8 @@ func oracle(t []string, out string) *hx.Violation {
 	switch t[0] {
 	case "ctx":
 		return pctx.Oracle(t, out)
+	case "e2e":
+		return pctx.E2EOracle(t, out)
 	case "pol":
 		ty, ver, h, f, r := u32(t[1]), u32(t[2]), u32(t[3]), u32(t[4]), u32(t[5])
 		ps := hx.UnHex(t[6])
@@ -243,6 +247,7 @@ func prefixMixes() []string {
 func gen(g *hx.Gen) {
 	pctx.Gen(g) // the real ContextCheck on an in-process node
 	pctx.Close()
+	pctx.E2EGen(g, false) // mempool admission, block validation and the RPC path on fresh nodes
 	types := buildable()
 	mixes := prefixMixes()
 	vers := []int{0, 1, 2, 3, 4, 255}
@@ -387,12 +392,12 @@ func nontrivial(t []string, out string) bool {
 }
 
 func bucket(t []string, out string) string {
-	if t[0] == "ctx" {
+	if t[0] == "ctx" || t[0] == "e2e" {
 		f := strings.Fields(out)
 		if len(f) >= 2 {
-			return "ctx/" + f[0] + " " + f[1]
+			return t[0] + "/" + f[0] + " " + f[1]
 		}
-		return "ctx/" + out
+		return t[0] + "/" + out
 	}
 	if t[0] == "pol" {
 		return "pol/" + out
